@@ -229,7 +229,6 @@ static int child(void *arg)
         be += e * e;
         ld u = 2.220446049250313e-16L * fabsl((ld)x->data[i][j]) / (zeroed ? 1.0L : fabsl((ld)sc));
         rp += u * u;
-        if(getenv("C01_DEBUG") && fabsl(e) > 1e-6) fprintf(stderr, "back i=%d j=%d x=%.17g bx=%.17g sc=%.17g avg=%.17g Edir=%.6Lg e=%.6Lg\n", i, j, x->data[i][j], bx->data[i][j], sc, m->colaverage->data[j], Edir[i * c + j], e);
       }
     }
     VRT_EMIT("{\"e\":\"Back\",\"err\":%ld,\"repr\":%ld}", vq12(sqrt((double)(be / ss0))), vq12(sqrt((double)(rp / ss0))));
